@@ -18,7 +18,8 @@ deprecated unorm/udot; unyt_quantity.__new__ refuses more than one element, whic
 unit-stripping accessors are classified by a may-alias analysis: d / ndview / ndarray_view() return views of self, v /
 value / to_ndarray() / copy() / to_value() return fresh arrays, the constructor wraps ndarray and unyt_array input as a view,
 Unit * data copies the data, and a list of quantities in mixed units is coerced by converting every element into the
-first element's unit; (R3) indexing and views keep units and name."""
+first element's unit; (R3) indexing and views keep units and name.
+(R4) converting calls build their result from a product with the conversion factor on every path (shared with C03-R2)."""
 LEVEL_NOTE = """Undecided: shapes produced by NumPy for functions unyt does not wrap. Noted, not a rule instance: handlers with
 out= return unyt_array(res, ...) unconditionally (np.dot(a, b, out=<0-d>) yields a 0-d unyt_array, which is not a
 multi-element quantity and therefore not excluded by the statement's 'never a multi-element quantity' clause but is a 0-d
